@@ -32,7 +32,25 @@ def run(ctx):
     f = ix.function("fdtdx.core.jax.ste.straight_through_estimator")
     ctx.unit(f.where())
     x, y = Rat.atom("x"), Rat.atom("y")
-    r = to_rat(it.call(it.closure_of(f), [x, y], {}))
+    # the discrete argument may be an integer array (the argmin branch hands in int32 indices): a cast of the result to
+    # the dtype of y is not the identity — it cuts the gradient path — so such a cast is kept visible as an opaque atom
+    from .. import absint
+    from ..values import Builtin
+
+    old_scalar_attr = absint.scalar_attr
+
+    def scalar_attr(interp, v, name):
+        if name == "dtype":
+            return ("dtype-of", to_rat(v).fmt())
+        if name == "astype":
+            return Builtin("astype", lambda it_, a, k_, _v=v: Rat.atom(("cast", to_rat(_v).fmt(), a[0][1])) if a and isinstance(a[0], tuple) and a[0][:1] == ("dtype-of",) and a[0][1] != to_rat(_v).fmt() else _v)
+        return old_scalar_attr(interp, v, name)
+
+    absint.scalar_attr = scalar_attr
+    try:
+        r = to_rat(it.call(it.closure_of(f), [x, y], {}))
+    finally:
+        absint.scalar_attr = old_scalar_attr
     thaw = {a: Rat.atom(a[1]) for a in r.atoms() if isinstance(a, tuple) and a and a[0] == "sg"}
     val = r.subs(thaw)
     ctx.ob("R19.1", "straight_through_estimator:value", val.equals(y), "forward value equals the discrete argument y", val.fmt(), "y")
